@@ -353,6 +353,44 @@ class Engine:
         sat, m = self.check(z3.Not(c))
         return (not sat), m
 
+    def second_opinion(self, c, timeout_ms=10000):
+        """re-decide `path AND NOT c` (which z3 has just answered unsat) with cvc5 on the SMT-LIB2 text of the query.
+        Returns 'unsat' (agrees), 'sat' (DISAGREES), 'unknown' (cvc5 timeout / incomplete) or 'unparsed' (text not accepted)."""
+        c = unwrap_bool(c)
+        if c is True or c is False:
+            return 'trivial'
+        try:
+            import cvc5
+        except Exception:
+            return 'unavailable'
+        f = z3.Solver()
+        f.add(*self.s.assertions())
+        f.add(z3.Not(c))
+        txt = f.to_smt2()
+        t = time.time()
+        try:
+            slv = cvc5.Solver()
+            slv.setOption('tlimit-per', str(int(timeout_ms)))
+            slv.setLogic('ALL')
+            ip = cvc5.InputParser(slv)
+            ip.setStringInput(cvc5.InputLanguage.SMT_LIB_2_6, txt, 'q')
+            sm = ip.getSymbolManager()
+            out = ''
+            while True:
+                cmd = ip.nextCommand()
+                if cmd.isNull():
+                    break
+                out += str(cmd.invoke(slv, sm))
+        except Exception as ex:
+            self.t2 = getattr(self, 't2', 0.0) + time.time() - t
+            return 'unparsed'
+        self.t2 = getattr(self, 't2', 0.0) + time.time() - t
+        if '(error' in out:
+            return 'unparsed'
+        out = out.strip().splitlines()
+        r = out[-1].strip() if out else 'unknown'
+        return r if r in ('sat', 'unsat') else 'unknown'
+
     def robust_model(self, extra=(), margin=Fraction(1, 10 ** 6)):
         """a model of the path condition in which every decided strict/non-strict real comparison holds with a
         margin (keeps replays away from IEEE-rounding distance of a branch boundary); None if the path is thin"""
